@@ -5,7 +5,9 @@ import subprocess
 
 import common
 
-SENTINEL = "# sentinel: previous target content\n"
+# previous content of the target: much longer than any document written over it (a target that is overwritten without
+# being truncated keeps a tail of it)
+SENTINEL = "# sentinel: previous target content\n" + "".join("# line %04d of the previous target ............................................................\n" % i for i in range(600))
 
 
 def run(files, main="main.oal", base=None, via_config=False, target_exists=False, workdir=None, timeout=60.0, extra_args=None, env_extra=None):
